@@ -33,6 +33,9 @@ structure Glue where
   pdOf : Nat → C12.PD
   /-- C12 resolves field values as JSON (`Values`), C02 stores the claims of a token as strings -/
   render : C12.Values → C02.Claims
+  /-- C02 counts time in units of its own (`Cfg.second` per second, `Nat`), C01 in unix milliseconds (`Int`): the moment of a
+      token request as C01's clock shows it -/
+  clock : Nat → C01.Time
 
 /-! ### (1a) C11's revocation / status-list state → the revocation inputs of C01's verifier -/
 
@@ -84,37 +87,37 @@ structure Ctx where
   re : C12.Regex
   decode : C12.Decoder
 
-/-- C01's environment at this server in revocation world `rw` -/
-def Ctx.env (x : Ctx) (rw : C11.World) : C01.Env := revEnv x.g x.E11 x.node rw x.base
+/-- C01's environment at this server in revocation world `rw` at C02-time `t` (the verifier's clock is the request's moment) -/
+def Ctx.env (x : Ctx) (rw : C11.World) (t : Nat) : C01.Env := revEnv x.g x.E11 x.node rw { x.base with now := x.g.clock t }
 
 /-- `Verifier.VerifyVP(vp, true, true, nil)` (the call of the token endpoint: credentials verified, untrusted issuers
     allowed, at the current time) over revocation world `rw` -/
-def accepts (x : Ctx) (rw : C11.World) (vp : C01.Pres) : Bool :=
-  (C01.verifyVP x.cfg1 x.P (x.env rw) true true none vp).isOk
+def accepts (x : Ctx) (rw : C11.World) (t : Nat) (vp : C01.Pres) : Bool :=
+  (C01.verifyVP x.cfg1 x.P (x.env rw t) true true none vp).isOk
 
 /-- a presentation as the token endpoint sees it: `wire` carries what C01 does not model (dates as C02 counts them,
     audience, nonce, challenge); the verdict, signer, subjects and format COME FROM C01 -/
-def vpOf (x : Ctx) (rw : C11.World) (vp : C01.Pres) (wire : C02.VP) : C02.VP :=
+def vpOf (x : Ctx) (rw : C11.World) (t : Nat) (vp : C01.Pres) (wire : C02.VP) : C02.VP :=
   { wire with
-    verifies := accepts x rw vp
-    signer := C01.presentationSigner (x.env rw) vp
+    verifies := accepts x rw t vp
+    signer := C01.presentationSigner (x.env rw t) vp
     subjects := vp.vcs.map C01.subjectDID
     ld := decide (vp.format = .ld) }
 
 /-- the envelope C12's `Validate` works on, built from the presentations C01 verified -/
-def envelopeOf (x : Ctx) (rw : C11.World) (vps : List C01.Pres) : C12.Envelope :=
+def envelopeOf (x : Ctx) (rw : C11.World) (t : Nat) (vps : List C01.Pres) : C12.Envelope :=
   { (default : C12.Envelope) with
     asInterface := x.g.envJ vps
     presentations := vps.map (fun vp => vp.vcs.map x.g.view)
-    signerOK := vps.map (fun vp => (C01.presentationSigner (x.env rw) vp).isSome) }
+    signerOK := vps.map (fun vp => (C01.presentationSigner (x.env rw t) vp).isSome) }
 
 /-- what the token endpoint computes from a submission for the definition with key `k`:
     `PEXConsumer.fulfill` → C12 `validate`; `credentialMap` → C12 `resolve`; `resolveInputDescriptorValues` →
     C12 `resolveFields` (one definition: nothing to merge) -/
-def fieldsOf (x : Ctx) (rw : C11.World) (vps : List C01.Pres) (sub : List C12.Mapping) (k : Nat) : Res C12.Values :=
-  match C12.validate x.cfg12 x.re x.decode (x.g.pdOf k) (envelopeOf x rw vps) sub with
+def fieldsOf (x : Ctx) (rw : C11.World) (t : Nat) (vps : List C01.Pres) (sub : List C12.Mapping) (k : Nat) : Res C12.Values :=
+  match C12.validate x.cfg12 x.re x.decode (x.g.pdOf k) (envelopeOf x rw t vps) sub with
   | .ok _ =>
-    match C12.resolve x.cfg12 x.decode (envelopeOf x rw vps).asInterface [] sub with
+    match C12.resolve x.cfg12 x.decode (envelopeOf x rw t vps).asInterface [] sub with
     | .ok cm => C12.resolveFields x.cfg12 x.re (x.g.pdOf k) [] cm
     | .err e => .err e
     | .panic s => .panic s
@@ -134,11 +137,11 @@ def Req.pres (r : Req) : List C01.Pres := r.vps.map (·.1)
 /-- the request C02's `issueS2S` receives: its three formerly free inputs are now COMPUTED by C01 and C12.
     C02 has ONE refusal for the PEX step (`pex k = false`); both C12 failures on the way to the claims — `Validate`
     refuses, or the field resolution errs — are mapped to it (the Go handler answers no token in both cases). -/
-def s2sOf (x : Ctx) (rw : C11.World) (r : Req) : C02.S2SReq :=
+def s2sOf (x : Ctx) (rw : C11.World) (t : Nat) (r : Req) : C02.S2SReq :=
   { r.wire with
-    vps := r.vps.map (fun p => vpOf x rw p.1 p.2)
-    pex := fun k => (fieldsOf x rw r.pres r.sub k).isOk
-    claims := fun k => match fieldsOf x rw r.pres r.sub k with | .ok vals => x.g.render vals | _ => [] }
+    vps := r.vps.map (fun p => vpOf x rw t p.1 p.2)
+    pex := fun k => (fieldsOf x rw t r.pres r.sub k).isOk
+    claims := fun k => match fieldsOf x rw t r.pres r.sub k with | .ok vals => x.g.render vals | _ => [] }
 
 /-! ### the composed server: the revocation layer (C11) next to the token endpoint (C02) -/
 
@@ -155,7 +158,7 @@ structure St where
 /-- the C02 operation an event amounts to in state `s` (revocation events are invisible to C02) -/
 def opOf (x : Ctx) (s : St) : Ev → Option (Nat × C02.Op)
   | .rev _ => none
-  | .req t r => some (t, .s2s (s2sOf x s.rw r))
+  | .req t r => some (t, .s2s (s2sOf x s.rw t r))
 
 /-- one event.  A token request reads the revocation world as it is (a status list it would fetch is judged through
     C11's `download`, see `statusRecord`) and leaves it unchanged; the caching side effect of a verification is C11's
@@ -163,7 +166,7 @@ def opOf (x : Ctx) (s : St) : Ev → Option (Nat × C02.Op)
 def stepEv (x : Ctx) (cfg2 : C02.Cfg) (s : St) : Ev → St × Option (Res C02.TokenResponse)
   | .rev a => ({ s with rw := C11.step x.E11 x.K s.rw a }, none)
   | .req t r =>
-    let o := C02.issueS2S cfg2 s.as t (s2sOf x s.rw r)
+    let o := C02.issueS2S cfg2 s.as t (s2sOf x s.rw t r)
     ({ s with as := o.1 }, some o.2)
 
 def runEv (x : Ctx) (cfg2 : C02.Cfg) (s : St) (evs : List Ev) : St := evs.foldl (fun s e => (stepEv x cfg2 s e).1) s
